@@ -3,6 +3,7 @@
 EXTENDS TibcCoreMC
 
 Links3 == [c \in Chains |-> Chains \ {c}]                      \* T3: full mesh A, B, C
+LinksSparse == [c \in Chains |-> IF c = "A" THEN {"B", "C"} ELSE {"A"}]   \* A-B and A-C only: B and C do not know each other
 RuleSetsSmall == { {}, {<<"A", "*", "mock">>} }
 NoPairs == {}
 ExpireCA == {<<"C", "A">>}
